@@ -174,6 +174,14 @@ fn build_function(d: &Value) -> il::Function {
     if d["exit"].as_i64().unwrap() >= 0 {
         cfg.set_exit(d["exit"].as_u64().unwrap() as usize).unwrap();
     }
+    // optional gaps in the instruction indices: [[block, instruction index to remove], ..]
+    if let Some(gaps) = d.get("gaps").and_then(|g| g.as_array()) {
+        for g in gaps {
+            let b = g[0].as_u64().unwrap() as usize;
+            let i = g[1].as_u64().unwrap() as usize;
+            let _ = cfg.block_mut(b).and_then(|blk| blk.remove_instruction(i));
+        }
+    }
     il::Function::new(0, cfg)
 }
 
@@ -255,7 +263,17 @@ fn random_function(rng: &mut Rng) -> Value {
     } else {
         rng.below(nb as u64) as i64
     };
-    json!({"blocks": blocks, "edges": edges, "entry": entry, "exit": exit})
+    // gaps in the instruction indices of some blocks (nothing in falcon's constructors produces
+    // them, Block::remove_instruction does)
+    let mut gaps: Vec<[usize; 2]> = Vec::new();
+    if rng.chance(1, 3) {
+        for (b, k) in blocks.iter().enumerate() {
+            if *k >= 2 && rng.bool() {
+                gaps.push([b, rng.below(*k) as usize]);
+            }
+        }
+    }
+    json!({"blocks": blocks, "edges": edges, "entry": entry, "exit": exit, "gaps": gaps})
 }
 
 /// hand-made shapes: the corners named by the property
